@@ -10,7 +10,9 @@ from .common import tlc, log, workdir, ToolError
 G1 = ('2020-06-01 BUY AAA 10.5 @ 5\n2020-07-01 SELL AAA 4.375 @ 8 FEES 1\n2020-07-15 BUY AAA 2.125 @ 6\n'
       '2021-06-10 DIVIDEND AAA TOTAL 3 TAX 1\n2021-09-01 SELL AAA 3.3333 @ 4\n2021-09-01 BUY BBB 5 @ 2.125\n2021-09-01 SELL BBB 1.5 @ 2.5\n2021-10-05 SELL BBB 3.5 @ 2.25\n'
       # a capital return months after every AAA sale: it still moves the cost of the lots those sales drew on
-      '2022-03-01 CAPRETURN AAA 4 TOTAL 2.5 FEES 0\n')
+      '2022-03-01 CAPRETURN AAA 4 TOTAL 2.5 FEES 0\n'
+      # a sale with a repurchase exactly 30 days later (1 June -> 1 July): the last day of the 30-day rule
+      '2022-05-01 BUY CCC 10 @ 3\n2022-06-01 SELL CCC 4 @ 5\n2022-07-01 BUY CCC 3 @ 4\n')
 UNCOVERED = '2020-06-01 BUY AAA 10 @ 5\n2020-07-01 SELL AAA 40 @ 8\n'
 DIVONLY = '2024-06-10 DIVIDEND AAA TOTAL 200.50 TAX 12\n2024-09-10 DIVIDEND BBB TOTAL 10 USD TAX 0\n'     # an income-only year: no BUY, no SELL
 NOEXEMPT = '2030-06-01 BUY AAA 10 @ 5\n2030-07-01 SELL AAA 4 @ 8\n'
@@ -18,7 +20,7 @@ OVERFLOW = '2020-06-01 BUY AAA 1 @ 79228162514264337593543950335 FEES 1\n'
 # a ledger with a disposal in a tax year that has no configured exemption: a single-year report of another year is still possible
 G2 = '2024-05-01 BUY VOD 100 @ 1\n2024-09-10 SELL VOD 10 @ 2\n2026-09-10 SELL VOD 5 @ 2\n2012-05-01 BUY OLD 10 @ 1\n2012-06-01 SELL OLD 5 @ 2\n'
 # two securities are sold on 2021-09-01: each must be explainable on its own (C09)
-DISPOSALS = [('2020-07-01', 'AAA'), ('2021-09-01', 'AAA'), ('2021-09-01', 'BBB'), ('2021-10-05', 'bbb')]
+DISPOSALS = [('2020-07-01', 'AAA'), ('2021-09-01', 'AAA'), ('2021-09-01', 'BBB'), ('2021-10-05', 'bbb'), ('2022-06-01', 'CCC')]
 
 
 def call(tool, args):
@@ -345,7 +347,7 @@ def _mcp_check(tier, seed):
                     if pence(me['allowable_cost']) != pence(mc['allowable_cost']) or Decimal(me['quantity']) != Decimal(mc['quantity']):
                         bad.append(f'leg {me["rule"]}: {me["quantity"]} @ cost {me["allowable_cost"]} vs {mc["quantity"]} @ {mc["allowable_cost"]}')
                 if bad:
-                    for pr in ('C17', 'C20'):
+                    for pr in ('C17', 'C20', 'C01'):
                         findings.append({'prop': pr, 'kind': 'mcp_explain_figures', 'case': 0, 'input': G1, 'data': {},
                                          'detail': f'explain_matching for {t} on {d} disagrees with the report: ' + '; '.join(bad)})
             except Exception as e:
